@@ -57,6 +57,10 @@ func main() {
 		workerMain(*worker)
 		return
 	}
+	if sc := os.Getenv("VCHECK_C19_COLD"); sc != "" {
+		c19ColdMain(sc)
+		return
+	}
 	if os.Getenv("VCHECK_C19_CHILD") != "" {
 		c19ChildMain()
 		return
